@@ -339,7 +339,7 @@ pub fn decode(target: &str, data: &[u8]) -> Vec<(&'static str, Value)> {
                 let (rows, cols) = (r.below(10), r.below(10));
                 let vals: Vec<f32> = (0..8).map(|_| f32::from(r.u8() % 65) / 8.0 - 2.0).collect();
                 let data = (0..rows * cols).map(|_| vals[r.below(8)]).collect();
-                vec![("C05", serde_json::to_value(c05::Case::Matrix { rows, cols, data }).unwrap())]
+                vec![("C05", serde_json::to_value(c05::Case::Matrix { rows, cols, data, scale_exp: 0 }).unwrap())]
             }
             1 => {
                 let symmetric = r.bool();
@@ -358,7 +358,7 @@ pub fn decode(target: &str, data: &[u8]) -> Vec<(&'static str, Value)> {
                         ((0..na).map(|_| r.u8()).collect(), (0..nb).map(|_| r.u8()).collect())
                     })
                     .collect();
-                vec![("C05", serde_json::to_value(c05::Case::Sets { table, pairs }).unwrap())]
+                vec![("C05", serde_json::to_value(c05::Case::Sets { table, pairs, scale_exp: 0 }).unwrap())]
             }
             2 => {
                 let n = 2 + r.below(30);
@@ -379,7 +379,7 @@ pub fn decode(target: &str, data: &[u8]) -> Vec<(&'static str, Value)> {
                         table[j * n + i] = v;
                     }
                 }
-                vec![("C17", serde_json::to_value(c17::Case { method, sets, table, seed: u64::from(r.u32()), shift: [0.0f32, 0.5, 2.0][r.below(3)], iter_kind: r.u8() % 4 }).unwrap())]
+                vec![("C17", serde_json::to_value(c17::Case { method, sets, table, seed: u64::from(r.u32()), shift: [0.0f32, 0.5, 2.0][r.below(3)], iter_kind: r.u8() % 4, inf_pairs: (0..r.below(4)).map(|_| (r.u16(), r.u16())).collect(), inf_rate: if r.u8() % 4 == 0 { r.u8() } else { 0 }, inf_neg: r.u8() % 4 == 0 }).unwrap())]
             }
             _ => {
                 let all: Vec<u32> = if r.bool() { c06::leaf_ids() } else { c06::all_term_ids() };
